@@ -4,7 +4,9 @@
  * usage: c09_remote <level> <nrandom> <seed> <shard> <nshards>   |   c09_remote -   (cases on stdin)
  *
  * output, one line per case:
- *   S <ip> <helo> <sender> <rcpts,> <msg> <msgerr> <stream> <chunk> <wk> <endmode> <wlabel> <wtry> <out> <wire> <exit> <relay>
+ *   S <ip> <helo> <sender> <rcpts,> <msg> <msgerr> <stream> <chunk> <wk> <endmode> <wlabel> <wtry> <out> <wire> <exit> <relay> <wchunk>
+ *       wchunk = the socket takes at most this many bytes per write() call of blast() (0 = all): short writes, allwrite() loops;
+ *       every write() call counts for wk
  *       ip = 8 hex digits; rcpts = comma-separated hex; stream = every byte the server sends;
  *       chunk = bytes per read of the socket (0 = as many as fit); wk = number of the socket write that
  *       fails (0 = none); endmode = what a read past the end of the stream returns (0: 0/EOF, 1: -1/timeout;
@@ -21,7 +23,7 @@
  *       ipme, tcpto, socket/connect replaced: dnsret = what dns_mxip returns (-3 -2 -1 0 1);
  *       cands = comma-separated ip(8 hex):pref:isme:tcpto_skip:conn (conn 0 = connects, 1 = refused, 2 = timeout), or '.';
  *       trace = tcpto_err calls as comma-separated idx:flag, or '.'
- * stdin cases:  S <ip> <helo> <sender> <rcpts,> <msg> <msgerr> <stream> <chunk> <wk> <endmode>   |   R <wstat> <out>
+ * stdin cases:  S <ip> <helo> <sender> <rcpts,> <msg> <msgerr> <stream> <chunk> <wk> <endmode> [<wchunk>]   |   R <wstat> <out>
  *               M <dnsret> <cands> <stream> <wk>
  */
 #include "hcommon.h"
@@ -58,11 +60,11 @@ struct scase {
   unsigned char ip[4];
   hbuf helo, sender, rcpt[MAXR]; int n;
   hbuf msg; int msgerr;
-  hbuf stream; int chunk, wk, endmode;
+  hbuf stream; int chunk, wk, endmode, wchunk;
 };
 
 /* ---- scripted socket (replaces timeoutread.o / timeoutwrite.o) ---- */
-static const unsigned char *sv_p; static size_t sv_n, sv_pos; static int sv_chunk, sv_endmode;
+static const unsigned char *sv_p; static size_t sv_n, sv_pos; static int sv_chunk, sv_endmode, sv_wchunk;
 static hbuf wire, wtry; static int wcall, wfailat, data_sent, nrcptcmd; static char wlabel[32];
 
 ssize_t timeoutread(int t, int fd, char *buf, size_t len) {
@@ -95,6 +97,7 @@ ssize_t timeoutwrite(int t, int fd, const void *buf, size_t len) {
   }
   if (!strncmp(lab, "rcpt", 4)) nrcptcmd++;
   if (!strcmp(lab, "data")) data_sent = 1;
+  if (sv_wchunk > 0 && !strcmp(lab, "body") && len > (size_t)sv_wchunk) len = sv_wchunk;   /* short write */
   hbuf_add(&wire, buf, len);
   return len;
 }
@@ -144,7 +147,7 @@ static void run_s(struct scase *c) {
     if (!stralloc_copyb(reciplist.sa + reciplist.len, (char *)c->rcpt[i].p, c->rcpt[i].n)) exit(3);
     ++reciplist.len;
   }
-  sv_p = c->stream.p; sv_n = c->stream.n; sv_pos = 0; sv_chunk = c->chunk; sv_endmode = c->endmode;
+  sv_p = c->stream.p; sv_n = c->stream.n; sv_pos = 0; sv_chunk = c->chunk; sv_endmode = c->endmode; sv_wchunk = c->wchunk;
   in_p = c->msg.p; in_n = c->msg.n; in_pos = 0; in_err = c->msgerr;
   hbuf_reset(&wire); hbuf_reset(&repb); hbuf_reset(&wtry);
   wcall = 0; wfailat = c->wk; data_sent = 0; nrcptcmd = 0; strcpy(wlabel, "none");
@@ -161,7 +164,7 @@ static void run_s(struct scase *c) {
   fputc(' ', h_out); put_hex(&c->msg); fprintf(h_out, " %d ", c->msgerr); put_hex(&c->stream);
   fprintf(h_out, " %d %d %d %s ", c->chunk, c->wk, c->endmode, wlabel);
   put_hex(&wtry); fputc(' ', h_out);
-  put_hex(&repb); fputc(' ', h_out); put_hex(&wire); fprintf(h_out, " %d ", ex); put_hex(&relayb); fputc('\n', h_out);
+  put_hex(&repb); fputc(' ', h_out); put_hex(&wire); fprintf(h_out, " %d ", ex); put_hex(&relayb); fprintf(h_out, " %d\n", c->wchunk);
 }
 
 static void run_r(int wstat, const unsigned char *s, size_t n) {
@@ -213,7 +216,7 @@ static void run_m(const hbuf *stream, int wk) {
   ssin = tin; smtpto = tto; smtpfrom = tfrom;
   subfdoutsmall->op = wrrep; subfdoutsmall->p = 0;
   flagcritical = 0; smtptext.len = 0; reciplist.len = 0; port = PORT_SMTP;
-  sv_p = stream->p; sv_n = stream->n; sv_pos = 0; sv_chunk = 0; sv_endmode = 0;
+  sv_p = stream->p; sv_n = stream->n; sv_pos = 0; sv_chunk = 0; sv_endmode = 0; sv_wchunk = 0;
   in_p = (const unsigned char *)msg; in_n = sizeof msg - 1; in_pos = 0; in_err = 0;
   hbuf_reset(&wire); hbuf_reset(&repb); hbuf_reset(&trace); hbuf_reset(&wtry);
   wcall = 0; wfailat = wk; data_sent = 0; nrcptcmd = 0; strcpy(wlabel, "none");
@@ -252,7 +255,7 @@ static void base_case(int n) {
   C.n = n;
   for (int i = 0; i < n; i++) { char b[32]; snprintf(b, sizeof b, "r%d@b.example", i); hset(&C.rcpt[i], b); }
   hset(&C.msg, "Subject: x\n\n.hello\n"); C.msgerr = 0;
-  hbuf_reset(&C.stream); C.chunk = 0; C.wk = 0; C.endmode = 0;
+  hbuf_reset(&C.stream); C.chunk = 0; C.wk = 0; C.endmode = 0; C.wchunk = 0;
 }
 
 /* reply kinds; %s = the code this phase wants (220 / 250 / 354) */
@@ -313,16 +316,32 @@ static void enum_wfail(int n, int p, size_t slen) {
  * Each write from DATA to QUIT failing in turn, final reply 2xx/4xx/5xx. */
 static void enum_boundary(void) {
   static const char *fin[3] = { "250 ok\r\n", "451 later\r\n", "554 no\r\n" };
+  static const int wcs[4] = { 0, 1000, 600, 1 };
   for (int k = 1015; k <= 1026; k++)
     for (int j = 0; j < 3; j++)
-      for (int wk = 4; wk <= 8; wk++)
-        for (int em = 0; em < 2; em++) {
-          if (!mine()) continue;
-          base_case(1);
-          hbuf_reset(&C.msg); for (int i = 0; i < k; i++) hcat(&C.msg, "a"); hcat(&C.msg, "\n");
-          hset(&C.stream, "220 a\r\n250 b\r\n250 c\r\n250 d\r\n354 e\r\n"); hcat(&C.stream, fin[j]);
-          C.wk = wk; C.endmode = em; run_s(&C);
-        }
+      for (int wc = 0; wc < 4; wc++)
+        for (int wk = 4; wk <= (wc == 0 ? 8 : wc == 3 ? 6 : 10); wk++)
+          for (int em = 0; em < 2; em++) {
+            if (wc && (j || em)) continue;
+            if (!mine()) continue;
+            base_case(1);
+            hbuf_reset(&C.msg); for (int i = 0; i < k; i++) hcat(&C.msg, "a"); hcat(&C.msg, "\n");
+            hset(&C.stream, "220 a\r\n250 b\r\n250 c\r\n250 d\r\n354 e\r\n"); hcat(&C.stream, fin[j]);
+            C.wk = wk; C.endmode = em; C.wchunk = wcs[wc]; run_s(&C);
+            /* with one byte per write(): the writes around the end of the body and the terminator (calls k+2 .. k+6 of blast()) */
+            if (wc == 3 && wk == 4) for (int d = 0; d < 7; d++) { C.wk = 5 + k - 2 + d; run_s(&C); }
+          }
+  /* the same boundary reached with line ends (2-byte puts), a dot-stuffed line, a final CR (5-byte tail put as 2 + 3) */
+  static const char *tails[4] = { "\n", "\n.x\n", "\r", "\n\n\n" };
+  for (int k = 1012; k <= 1024; k++)
+    for (int tl = 0; tl < 4; tl++)
+      for (int wk = 5; wk <= 8; wk++) {
+        if (!mine()) continue;
+        base_case(1);
+        hbuf_reset(&C.msg); for (int i = 0; i < k; i++) hcat(&C.msg, "a"); hcat(&C.msg, tails[tl]);
+        hset(&C.stream, "220 a\r\n250 b\r\n250 c\r\n250 d\r\n354 e\r\n250 ok\r\n");
+        C.wk = wk; C.endmode = 0; C.wchunk = 0; run_s(&C);
+      }
 }
 
 /* every byte string over `alpha` up to length maxlen as the reply at a given position of a good conversation */
@@ -400,6 +419,8 @@ static void random_case(void) {
   C.chunk = (int[]){ 0, 1, 2, 7, 128, 1000 }[h_below(6)];
   C.wk = h_below(3) ? 0 : 1 + h_below(n + 9);
   C.endmode = h_below(2);
+  C.wchunk = h_below(3) ? 0 : (int[]){ 1, 2, 3, 7, 100, 1000 }[h_below(6)];
+  if (C.wchunk && C.wk) C.wk = 1 + h_below(n + 14);
   run_s(&C);
 }
 
@@ -452,9 +473,9 @@ static void stdin_cases(void) {
   static char f[12][1 << 17];
   while (fgets(line, sizeof line, stdin)) {
     if (line[0] == 'S') {
-      int msgerr, chunk, wk, endmode;
-      if (sscanf(line, "S %131000s %131000s %131000s %131000s %131000s %d %131000s %d %d %d", f[0], f[1], f[2], f[3], f[4],
-                 &msgerr, f[5], &chunk, &wk, &endmode) != 10) continue;
+      int msgerr, chunk, wk, endmode, wchunk = 0;
+      if (sscanf(line, "S %131000s %131000s %131000s %131000s %131000s %d %131000s %d %d %d %d", f[0], f[1], f[2], f[3], f[4],
+                 &msgerr, f[5], &chunk, &wk, &endmode, &wchunk) < 10) continue;
       unsigned v[4];
       if (sscanf(f[0], "%2x%2x%2x%2x", &v[0], &v[1], &v[2], &v[3]) != 4) continue;
       for (int i = 0; i < 4; i++) C.ip[i] = v[i];
@@ -465,7 +486,7 @@ static void stdin_cases(void) {
         for (char *t = strtok_r(f[3], ",", &save); t && C.n < MAXR; t = strtok_r(0, ",", &save)) unhexb(t, &C.rcpt[C.n++]);
       }
       unhexb(f[4], &C.msg); C.msgerr = msgerr; unhexb(f[5], &C.stream);
-      C.chunk = chunk; C.wk = wk; C.endmode = endmode;
+      C.chunk = chunk; C.wk = wk; C.endmode = endmode; C.wchunk = wchunk;
       run_s(&C);
     } else if (line[0] == 'M') {
       int wk; static hbuf st;
@@ -508,6 +529,7 @@ int main(int argc, char **argv) {
     base_case(n);
     hbuf_reset(&C.msg); for (int i = 0; i < 150; i++) hcat(&C.msg, ".line of text\n");
     enum_wfail(n, 0, 0);
+    if (n == 1) { C.wchunk = 700; enum_wfail(n, 0, 0); C.wchunk = 0; }
   }
   enum_boundary();
   /* message that cannot be sent: partial last line, read error */
